@@ -34,6 +34,7 @@ import (
 	"github.com/lestrrat-go/jwx/v2/jwt"
 	"github.com/nuts-foundation/nuts-node/audit"
 	"github.com/nuts-foundation/nuts-node/core"
+	nutsJwx "github.com/nuts-foundation/nuts-node/crypto/jwx"
 	"github.com/nuts-foundation/nuts-node/http/log"
 	"github.com/sirupsen/logrus"
 )
@@ -142,6 +143,10 @@ func (m middlewareImpl) checkConnectionAuthorization(context echo.Context, next 
 		// as the token may be expired etc. A further check with .Validate() is required in order
 		// to authenticate the request.
 		token, err := jwt.ParseString(credential, jwt.WithKeySet(authorizedKey.jwkSet, jws.WithInferAlgorithmFromKey(true)), jwt.WithValidate(false))
+		if err == nil && !credentialAlgorithmFitsKey(credential, authorizedKey) {
+			// The JWX library infers "any ECDSA algorithm" from an ECDSA key: it verifies e.g. an ES256 signature made with a P-384 key
+			err = errors.New("signing algorithm does not fit the authorized key")
+		}
 		if err != nil {
 			log.Logger().WithError(err).Error("Failed to parse JWT")
 			continue
@@ -172,6 +177,20 @@ func (m middlewareImpl) checkConnectionAuthorization(context echo.Context, next 
 
 	// No authorized keys were able to verify the JWT, so this is an unauthorized request
 	return unauthorizedError(context, errors.New("credential not signed by an authorized key"))
+}
+
+// credentialAlgorithmFitsKey returns true if the signing algorithm stated by the credential may be used with the authorized key:
+// an ECDSA key only with the algorithm of its curve (ES256 with P-256, ES384 with P-384, ES512 with P-521).
+func credentialAlgorithmFitsKey(credential string, authorizedKey authorizedKey) bool {
+	message, err := jws.ParseString(credential)
+	if err != nil || len(message.Signatures()) != 1 {
+		return false
+	}
+	publicKey, err := cryptoPublicKey(authorizedKey.key)
+	if err != nil {
+		return false
+	}
+	return nutsJwx.AlgorithmFitsKey(message.Signatures()[0].ProtectedHeaders().Algorithm(), publicKey)
 }
 
 // accessGranted allows a connection to be handled
